@@ -13,6 +13,7 @@ mod c11;
 mod ordu;
 mod c13;
 mod c14;
+mod c16;
 mod c20;
 mod denote;
 mod universe;
@@ -94,6 +95,11 @@ fn main() {
         "c20" => {
             let rep = Report::new("C20", "exploration");
             let cov = c20::run(&rep);
+            rep.finish(cov)
+        }
+        "c16" => {
+            let rep = Report::new("C16", "model_checking");
+            let cov = c16::run(&rep);
             rep.finish(cov)
         }
         _ => {
